@@ -414,7 +414,7 @@ var c16NumArg = hx.Define("c16.number-as-text", func(c *c16NumArgCase, s *hx.Sub
 	return nil
 })
 
-var c16Alphabet = []string{"a", "B", " ", "\n", "é", "😀", "<", "&", "%"}
+var c16Alphabet = []string{"a", "B", " ", "\n", "é", "😀", "<", "&", "%", "à", "Å"} // à and Å end in the bytes 0xA0 and 0x85
 var c16NoArg = []string{"upcase", "downcase", "capitalize", "strip", "lstrip", "rstrip", "size", "escape", "escape_once", "url_encode", "url_decode", "newline_to_br", "strip_newlines", "strip_html"}
 var c16StrArgs = []string{"", "a", "B", " ", "é", "😀", "<", "&", "%", "aB", "a ", "&a", "éé", "\n"}
 
